@@ -35,9 +35,9 @@ RULE = ("histories: a construction (label->target dict with hidden target-only v
         "edge_labels, edge_label, neighbors_*, edges_*, accepts, follow_word, "
         "initial_accepted_subword, enumerate_words on present and absent labels; all indices "
         "modulo the model state; universe <= 5 vertices, <= 4 labels; bounded-exhaustive: "
-        "every history of depth <= 2 (quick: + depth 3 from the empty automaton; thorough: "
-        "depth 3 from 4 constructions and depth 4 over a reduced alphabet) over 3 vertices / 2 "
-        "labels.  kbmag records: 1-3 records, 1-6 states, 0-4 identifier names (optionally "
+        "every history of depth <= 2 from 4 constructions (quick: + depth 3 from the empty "
+        "automaton over a reduced alphabet; thorough: depth 3 from all 4 constructions and depth "
+        "4 over a core alphabet) over 3 vertices / 2 labels.  kbmag records: 1-3 records, 1-6 states, 0-4 identifier names (optionally "
         "x^-1 style, optionally quoted), entries 0..n with all-zero and consecutive-run rows, "
         "[a..b] intervals, optional fields in rotated order, spacing from the parser's "
         "whitespace set at every token gap.  non-trivial history = >= 3 executed steps with an "
@@ -658,20 +658,29 @@ def nt_history(labels):
 
 # ---------------------------------------------------------------------------
 # strategies
+import functools
+
+
+@functools.lru_cache(maxsize=None)
+def _keys_st(nv, min_keys):
+    return st.lists(st.integers(0, nv - 1), min_size=min_keys, max_size=nv, unique=True)
+
+
+@functools.lru_cache(maxsize=None)
+def _rows_st(nv, nl, lo):
+    return st.lists(st.lists(st.integers(lo, nv - 1), min_size=nl, max_size=nl),
+                    min_size=nv, max_size=nv)
+
+
 @st.composite
 def graph_pairs(draw, nv, nl, min_keys=0):
     """[[v, [[label, head], ...]], ...]: a deterministic label->target dictionary
     over vertices 0..nv-1 and labels 'abcd'[:nl]; heads need not be keys"""
-    keys = draw(st.lists(st.integers(0, nv - 1), min_size=min_keys, max_size=nv, unique=True))
-    dens = draw(st.sampled_from([0.2, 0.5, 0.8, 1.0]))
-    g = []
-    for v in keys:
-        nb = []
-        for l in "abcd"[:nl]:
-            if draw(st.floats(0, 1, allow_nan=False)) < dens:
-                nb.append([l, draw(st.integers(0, nv - 1))])
-        g.append([v, nb])
-    return g
+    keys = draw(_keys_st(nv, min_keys))
+    lo = draw(st.sampled_from([-3 * nv, -nv, -1, 0]))       # negative = no edge: density
+    rows = draw(_rows_st(nv, nl, lo))
+    return [[v, [[l, h] for l, h in zip("abcd"[:nl], row) if h >= 0]]
+            for v, row in zip(keys, rows)]
 
 
 def _verts_of(graph):
@@ -693,50 +702,64 @@ def start_for(draw, verts):
     return [draw(st.sampled_from(verts))]
 
 
+_EXTRAS_ST = st.lists(st.sampled_from(
+    ["alphabet.type", "alphabet.size", "alphabet.format", "states", "flags", "accepting",
+     "ratio", "word", "table.format", "table.numTransitions"]), unique=True, max_size=10)
+_STRINGS_ST = st.lists(st.sampled_from(
+    ["DFA", "minimized", "BFS", "accessible", "trim", "", "a,b", "rec(", ")", "]", "[1..3]",
+     "x := y", "dense deterministic", "two words", ";"]), max_size=4)
+_IDENT_ST = st.builds(lambda c, rest, inv: c + rest + ("^-1" if inv == 0 else ""),
+                      st.sampled_from("abcdxyzABXYrst_"),
+                      st.text(alphabet="abAB019_rxe", max_size=3), st.integers(0, 5))
+_NAME_ST = st.one_of(st.sampled_from(["a", "A", "b", "B", "c", "r", "rec"]), _IDENT_ST)
+_NAMES_ST = st.lists(_NAME_ST, unique=True, max_size=4)
+_KINDS_ST = st.lists(st.integers(0, 5), min_size=6, max_size=6)
+_RAW_ST = st.lists(st.lists(st.integers(-3, 6), min_size=5, max_size=5), min_size=6, max_size=6)
+_HEAD_ST = st.tuples(st.sampled_from([0, 0, 1, 12]), st.integers(0, 7),   # ratio
+                     st.sampled_from([0, 1, 2, 2, 3]),                     # at least .. names
+                     st.integers(0, 11),                                   # number of states
+                     st.booleans(), st.booleans(),                         # quote, interval rows
+                     st.integers(0, 5), st.integers(0, 3), st.integers(0, 7))
+WS_ATOM = st.text(alphabet=K.WS, max_size=3)
+_WS_LIST_ST = st.lists(st.one_of(WS_ATOM, st.sampled_from(list(K.WS) + ["", "\n  "])),
+                       min_size=2, max_size=12)
+_REC_NAMES_ST = st.permutations(["_RWS.wa", "_RWS.geowa", "_RWS.diff2", "_RWS_Sub1.wa", "G.gm",
+                                 "x", "rws"])
+
+
 @st.composite
 def kbmag_rec(draw, fsa=True, max_states=6, max_names=4):
-    extras = draw(st.lists(st.sampled_from(
-        ["alphabet.type", "alphabet.size", "alphabet.format", "states", "flags", "accepting",
-         "ratio", "word", "table.format", "table.numTransitions"]), unique=True, max_size=10))
-    strings = draw(st.lists(st.sampled_from(
-        ["DFA", "minimized", "BFS", "accessible", "trim", "", "a,b", "rec(", ")", "]", "[1..3]",
-         "x := y", "dense deterministic", "two words", ";"]), max_size=4))
-    rec = dict(fsa=fsa, extras=sorted(extras), strings=strings,
-               ratio=[draw(st.sampled_from([0, 0, 1, 12])), draw(st.integers(0, 7))])
+    (r0, r1, min_names, nsel, quote, ivrows, init, init_iv, rot) = draw(_HEAD_ST)
+    rec = dict(fsa=fsa, extras=sorted(draw(_EXTRAS_ST)), strings=draw(_STRINGS_ST),
+               ratio=[r0, r1])
     if not fsa:
         return rec
-    letters = "abcdxyzABXYrst_"
-    ident = st.builds(lambda c, rest, inv: c + rest + ("^-1" if inv else ""),
-                      st.sampled_from(letters),
-                      st.text(alphabet="abAB019_rxe", max_size=3),
-                      st.integers(0, 5).map(lambda t: t == 0))
-    names = draw(st.lists(st.one_of(st.sampled_from(["a", "A", "b", "B", "c", "r", "rec"]),
-                                    ident), unique=True, max_size=max_names,
-                          min_size=min(max_names, draw(st.sampled_from([0, 1, 2, 2, 3])))))
-    n = draw(st.sampled_from([1] + list(range(2, max_states + 1)) * 2))
+    names = draw(_NAMES_ST)[:max_names]
+    for x in ["a", "b", "A"]:                    # pad up to the wanted minimum
+        if len(names) < min(min_names, max_names) and x not in names:
+            names.append(x)
+    states = [1] + list(range(2, max_states + 1)) * 2
+    n = states[nsel % len(states)]
     m = len(names)
+    kinds = draw(_KINDS_ST)[:n]
+    raw = draw(_RAW_ST)[:n]
     table = []
-    for _ in range(n):
-        kind = draw(st.integers(0, 5))
+    for kind, r in zip(kinds, raw):
+        s0 = abs(r[4])
         if kind == 0:
             row = [0] * m
         elif kind == 1 and m >= 1 and n - m + 1 >= 1:
-            s = draw(st.integers(1, n - m + 1))        # consecutive run s..s+m-1 <= n
-            row = list(range(s, s + m))
+            s0 = 1 + s0 % (n - m + 1)                  # consecutive run s..s+m-1 <= n
+            row = list(range(s0, s0 + m))
         elif kind == 2 and n - m >= 0:
-            s = draw(st.integers(0, n - m))            # run starting with the failure state
-            row = list(range(s, s + m))
+            s0 = s0 % (n - m + 1)                      # run starting with the failure state
+            row = list(range(s0, s0 + m))
         else:
-            row = [draw(st.sampled_from([0, draw(st.integers(0, n)), draw(st.integers(1, n))]))
-                   for _ in range(m)]
+            row = [0 if x < 0 else x % (n + 1) for x in r[:m]]   # negative = failure state
         table.append(row)
-    rec.update(names=names, quote_names=draw(st.booleans()), table=table,
-               interval_rows=draw(st.booleans()), initial=draw(st.integers(1, n)),
-               initial_interval=draw(st.integers(0, 3)) == 0, rot=draw(st.integers(0, 7)))
+    rec.update(names=names, quote_names=quote, table=table, interval_rows=ivrows,
+               initial=1 + init % n, initial_interval=init_iv == 0, rot=rot)
     return rec
-
-
-WS_ATOM = st.text(alphabet=K.WS, max_size=3)
 
 
 @st.composite
@@ -744,8 +767,7 @@ def kbmag_spec(draw, max_records=3, **kw):
     nrec = draw(st.sampled_from([1, 1, 1, 2, 2, 3][:2 * max_records]))
     which = draw(st.integers(0, nrec - 1))        # this one is an FSA for sure
     recs = []
-    pool = ["_RWS.wa", "_RWS.geowa", "_RWS.diff2", "_RWS_Sub1.wa", "G.gm", "x", "rws"]
-    names = draw(st.lists(st.sampled_from(pool), min_size=nrec, max_size=nrec, unique=True))
+    names = draw(_REC_NAMES_ST)[:nrec]
     for j in range(nrec):
         is_fsa = (j == which) or draw(st.booleans())
         r = draw(kbmag_rec(fsa=is_fsa, **kw))
@@ -757,8 +779,7 @@ def kbmag_spec(draw, max_records=3, **kw):
     elif style == 1:
         ws = [" "]
     else:
-        ws = draw(st.lists(st.one_of(WS_ATOM, st.sampled_from(list(K.WS) + ["", "\n  "])),
-                           min_size=2, max_size=12))
+        ws = draw(_WS_LIST_ST)
     return dict(records=recs, ws=ws, lead=draw(WS_ATOM), tail=draw(WS_ATOM))
 
 
@@ -781,10 +802,8 @@ def init_case(draw, nv, nl, routes=("dict", "dict", "alt", "alt", "empty", "free
 
 
 def step_strategy(ops):
-    return st.fixed_dictionaries({
-        "op": st.sampled_from(ops),
-        "a": st.lists(st.integers(0, 11), min_size=8, max_size=8),
-    })
+    return st.tuples(st.sampled_from(ops), st.binary(min_size=8, max_size=8)).map(
+        lambda t: {"op": t[0], "a": [x % 12 for x in t[1]]})
 
 
 EDIT_WEIGHTED = (["add_vertices", "add_edge", "add_edge", "add_edge", "add_edges", "add_elist",
@@ -856,7 +875,7 @@ EXH_INITS = [
 
 def _core_alphabet():
     return [s for s in exhaustive_alphabet(True)
-            if s["op"] in ("add_edge", "delete_vertex", "q_pairs", "recurrent", "add_elist")]
+            if s["op"] in ("add_edge", "delete_vertex", "q_pairs", "recurrent")]
 
 
 FAN_ALPHABETS = {"full": exhaustive_alphabet(False), "reduced": exhaustive_alphabet(True),
@@ -882,10 +901,15 @@ def exhaustive_histories(tier):
                      "(one case = a depth-2 prefix extended by each of the %d steps)"
                      % (len(red), len(red)), d3))
     else:
-        d3 = [hist(i, s, "full") for i in EXH_INITS for s in itertools.product(full, repeat=2)]
-        doms.append(("all histories of depth 3, %d-step alphabet, 4 constructions (one case = "
-                     "a depth-2 prefix extended by each of the %d steps)"
+        d3 = [hist(EXH_INITS[0], s, "full") for s in itertools.product(full, repeat=2)]
+        doms.append(("all histories of depth 3 from the empty automaton, %d-step alphabet (one "
+                     "case = a depth-2 prefix extended by each of the %d steps)"
                      % (len(full), len(full)), d3))
+        d3r = [hist(i, s, "reduced") for i in EXH_INITS[1:]
+               for s in itertools.product(red, repeat=2)]
+        doms.append(("all histories of depth 3 from 3 dictionary constructions, %d-step "
+                     "alphabet (one case = a depth-2 prefix extended by each of the %d steps)"
+                     % (len(red), len(red)), d3r))
         d4 = [hist(EXH_INITS[0], s, "core") for s in itertools.product(core, repeat=3)]
         doms.append(("all histories of depth 4 from the empty automaton, %d-step core alphabet "
                      "(one case = a depth-3 prefix extended by each of the %d steps)"
@@ -1016,19 +1040,19 @@ def body_atheris(case, ctx):
 
 # ---------------------------------------------------------------------------
 _machine_edits = Law("views_machine_edits", history_case(EDIT_WEIGHTED), body_history_edits,
-                     nt_history, quick=220, thorough=1500, shards=(2, 8))
+                     nt_history, quick=220, thorough=1000, shards=(2, 8))
 _machine_all = Law("views_machine_queries", history_case(EDIT_WEIGHTED + QUERY_WEIGHTED),
-                   body_history, nt_history, quick=220, thorough=1500, shards=(3, 8))
+                   body_history, nt_history, quick=220, thorough=1000, shards=(3, 8))
 _after = Law("edits_after_queries",
              history_case(["add_edge", "add_elist", "delete_vertex", "delete_vertices",
                            "recurrent", "rlp", "multiple", "rename", "copy"] +
                           ["q_pairs", "q_pairs", "q_nbrs", "q_word", "q_enum"] * 2, max_steps=16),
              body_history_lenient, lambda l: "edit-after-query" in l and "len>=3" in l,
-             quick=200, thorough=1500, shards=(2, 6))
+             quick=200, thorough=1000, shards=(2, 6))
 _exh = Law("bounded_exhaustive_histories", None, body_history, nt_history,
            exhaustive=exhaustive_histories)
 _exh.ex_shards = {"quick": 6, "thorough": 16}
-_kb = Law("kbmag_roundtrip", kbmag_spec(), body_kbmag, nt_kbmag, quick=300, thorough=3000,
+_kb = Law("kbmag_roundtrip", kbmag_spec(), body_kbmag, nt_kbmag, quick=300, thorough=1500,
           shards=(2, 8))
 _bi = Law("builtins_load_and_cohere", builtin_case(), body_builtin, lambda l: True, quick=25,
           thorough=150, shards=(1, 2), exhaustive=exhaustive_builtins)
